@@ -17,6 +17,7 @@ import (
 	imap "github.com/emersion/go-imap/v2"
 	"github.com/emersion/go-imap/v2/imapclient"
 	"github.com/emersion/go-imap/v2/internal/vsched"
+	"github.com/emersion/go-imap/v2/verif/vimap"
 	"github.com/emersion/go-imap/v2/verif/vk"
 	"github.com/emersion/go-imap/v2/verif/vnet"
 	"github.com/emersion/go-imap/v2/verif/vx"
@@ -36,7 +37,7 @@ type kind struct {
 	anyOrder bool
 	// ext: extension kinds take part in pipelines of at most 2 (+1 dup) commands also in the
 	// thorough tier (the triples are over the core kinds)
-	ext bool
+	ext   bool
 	class string // ambiguity class: at most one pending command per class ("" = none)
 	lines int    // CRLFs the client writes for the command
 	issue func(c *imapclient.Client) handle
@@ -601,7 +602,7 @@ func runScenario(sc *scenario, ks []kind) func() interface{} {
 				deliver("* 2 EXISTS", nil)
 				deliver("* FLAGS (\\Seen)", nil)
 				deliver("* OK [PERMANENTFLAGS (\\Seen)] ok", nil)
-				deliver(fmt.Sprintf("T%d OK [READ-WRITE] selected", tagN), func() {
+				deliver(vimap.Tag(tagN)+" OK [READ-WRITE] selected", func() {
 					m.state = "selected"
 					m.mbox = &mbox{name: "start", num: 2, flags: "\\Seen", perm: "\\Seen"}
 				})
@@ -643,7 +644,7 @@ func runScenario(sc *scenario, ks []kind) func() interface{} {
 					if o.code {
 						code = map[string]string{"NO": "[NONEXISTENT] ", "BAD": "[CLIENTBUG] "}[o.typ]
 					}
-					deliver(fmt.Sprintf("T%d %s %stext", firstTag+ci, o.typ, code), nil)
+					deliver(fmt.Sprintf("%s %s %stext", vimap.Tag(firstTag+ci), o.typ, code), nil)
 					check("literal refused", false)
 				} else {
 					deliver("+ go ahead", nil)
@@ -663,7 +664,7 @@ func runScenario(sc *scenario, ks []kind) func() interface{} {
 					check(u, sc.UniCtx == "during-select")
 				}
 				if sc.UniCtx == "during-select" {
-					deliver(fmt.Sprintf("T%d NO [NONEXISTENT] no such mailbox", firstTag), func() {
+					deliver(vimap.Tag(firstTag)+" NO [NONEXISTENT] no such mailbox", func() {
 						if m.state == "selected" {
 							// RFC 9051 §6.3.2: a failed SELECT leaves no mailbox selected
 							m.state = "authenticated"
@@ -675,7 +676,7 @@ func runScenario(sc *scenario, ks []kind) func() interface{} {
 				if sc.UniCtx == "during-idle" {
 					phase = 3
 					vsched.WaitUntil("wait DONE", func() bool { return clientLines >= baseLines+2 })
-					deliver(fmt.Sprintf("T%d OK idle done", firstTag), nil)
+					deliver(vimap.Tag(firstTag)+" OK idle done", nil)
 					check("idle done", false)
 				}
 				tagN = firstTag
@@ -688,7 +689,7 @@ func runScenario(sc *scenario, ks []kind) func() interface{} {
 				cls := make([]cl, len(sc.Cmds))
 				pendingSelect := map[int]bool{}
 				for i, k := range sc.Cmds {
-					tag := fmt.Sprintf("T%d", firstTag+i)
+					tag := vimap.Tag(firstTag + i)
 					o := sc.Outcomes[i]
 					var ls []string
 					if o.typ == "OK" {
@@ -749,7 +750,7 @@ func runScenario(sc *scenario, ks []kind) func() interface{} {
 			vsched.WaitUntil("wait final noop", func() bool { return clientLines > base2 || cEnd.Closed() })
 			if !cEnd.Closed() {
 				tagN++
-				deliver(fmt.Sprintf("T%d OK noop", tagN), nil)
+				deliver(vimap.Tag(tagN)+" OK noop", nil)
 			}
 			phase = 5
 		})
@@ -1045,6 +1046,7 @@ func describe(sc *scenario, ks []kind) string {
 
 func main() {
 	run := vk.Start("C12", "model_checking")
+	vimap.Tag(1) // learn the client's tag syntax before any controlled execution
 	ks := kinds()
 	items := enumerate(ks, run.Thorough())
 	mk := func(sc *scenario) *vx.Scenario {
